@@ -523,7 +523,7 @@ fn prim_grid(i: u64, seed: u64) -> Option<WithPrim> {
 pub fn run(ctx: &Ctx) {
     let t = ctx.tier;
     let seed = ctx.seed;
-    let reps = t.pick(1u64, 20);
+    let reps = t.pick(3u64, 30);
     ctx.enumerated(
         "grid-gaps",
         "pair",
@@ -534,7 +534,7 @@ pub fn run(ctx: &Ctx) {
         check_pair,
     );
     let max_len = t.pick(400usize, 5000);
-    ctx.generated("random-pairs", "pair", t.pick(4_000, 150_000), "log-uniform lengths, gaps to 10^4, zero-with-scale, 1.00, twins, cancellations", move || pair_strategy(max_len), check_pair);
+    ctx.generated("random-pairs", "pair", t.pick(40_000, 400_000), "log-uniform lengths, gaps to 10^4, zero-with-scale, 1.00, twins, cancellations", move || pair_strategy(max_len), check_pair);
     ctx.enumerated(
         "prim-grid",
         "prim",
@@ -544,6 +544,6 @@ pub fn run(ctx: &Ctx) {
         move |i| prim_grid(i % (10 * 11 * 120), seed.wrapping_add(i / (10 * 11 * 120))),
         check_prim,
     );
-    ctx.generated("random-prims", "prim", t.pick(4_000, 150_000), "random decimal x random primitive of random type", move || prim_strategy(max_len.min(1000)), check_prim);
-    ctx.generated("random-bigints", "bigint", t.pick(4_000, 150_000), "random decimal x BigInt of 1..200 digits; all 36 BigInt overloads", move || int_strategy(max_len.min(1000)), check_int);
+    ctx.generated("random-prims", "prim", t.pick(30_000, 300_000), "random decimal x random primitive of random type", move || prim_strategy(max_len.min(1000)), check_prim);
+    ctx.generated("random-bigints", "bigint", t.pick(30_000, 300_000), "random decimal x BigInt of 1..200 digits; all 36 BigInt overloads", move || int_strategy(max_len.min(1000)), check_int);
 }
